@@ -165,7 +165,7 @@ func cmdCheck(args []string) int {
 	if cfg.KeepPaths < 8 {
 		cfg.KeepPaths = 8
 	}
-	work := filepath.Join(root, "work", id+"-"+*tier)
+	work := filepath.Join(root, "work", id+"-"+*tier+os.Getenv("GOSYM_WORK_SUFFIX")) // suffix: concurrent exploratory runs of one check
 	os.RemoveAll(work)
 	os.MkdirAll(work, 0o755)
 	if os.Getenv("GOSYM_KEEP_WORK") == "" {
